@@ -606,6 +606,96 @@ void OwnerCase(Ctx& ctx) {
   CheckObs(ctx, obs, exp, sh, 1, "continuation that destroys the Promise's owner");
 }
 
+// ------------------------------------------------------------------------------------------------
+// Promise::Set(args...) whose in-place construction of the value throws: nothing has been delivered, so the Promise
+// still owns the state - a retry delivers the value, dropping the Promise delivers StopError, each exactly once.
+struct Bomb {
+  Tracked t;
+  Bomb(int code, bool explode) : t{code} {
+    if (explode) {
+      throw MyException{code};
+    }
+  }
+};
+
+void ThrowingSetCase(Ctx& ctx) {
+  using R = Result<Bomb, MyError>;
+  ResetTags();
+  int code = static_cast<int>(ctx.rng.In(1, 1000000));
+  u32 pj = ctx.rng.Below(5), cj = ctx.rng.Below(5);
+  int after = static_cast<int>(ctx.rng.Below(2));   // 0 retry with a value that can be constructed, 1 drop the Promise
+  int attach = static_cast<int>(ctx.rng.Below(3));  // 0 ThenInline, 1 DetachInline, 2 Get
+  ctx.Note("Set(args) throws while constructing the value, then the producer %s; consumer %s; pre-yields p=%u c=%u ",
+           after == 0 ? "retries" : "drops the Promise", attach == 0 ? "ThenInline" : attach == 1 ? "DetachInline" : "Get", pj, cj);
+  ctx.Class(after == 0 ? "retry" : "drop");
+  Shared sh;
+  Obs obs;
+  bool threw = false, valid_after_throw = true;
+  {
+    auto [f0, p0] = yaclib::MakeContract<Bomb, MyError>();
+    auto f = std::move(f0);
+    yaclib::Future<void, MyError> tail;
+    auto digest = [&obs, &sh](const R& r) {
+      obs.at = Stamp();
+      VF_R(sh.side, "C04,C01");
+      obs.side = sh.side;
+      obs.state = static_cast<int>(r.State());
+      if (obs.state == 0) {
+        obs.code = r.Value().t.v;
+        obs.fresh = r.Value().t.Fresh();
+      } else if (obs.state == 2) {
+        obs.code = r.Error().code;
+      }
+      obs.calls.fetch_add(1, kRlx);
+    };
+    yaclib_std::thread producer([&, p = std::move(p0)]() mutable {
+      Jitter(pj);
+      VF_W(sh.side, "C04,C01");
+      sh.side = code;
+      sh.set_call = Stamp();
+      try {
+        std::move(p).Set(code, true);
+      } catch (const MyException&) {
+        threw = true;
+      }
+      valid_after_throw = p.Valid();
+      Jitter(1);
+      if (after == 0 && p.Valid()) {
+        std::move(p).Set(code, false);
+      } else {
+        auto dead = std::move(p);
+      }
+      sh.set_ret = Stamp();
+    });
+    yaclib_std::thread consumer([&] {
+      Jitter(cj);
+      if (attach == 0) {
+        tail = std::move(f).ThenInline([digest](R&& r) {
+          digest(r);
+        });
+      } else if (attach == 1) {
+        std::move(f).DetachInline([digest](R&& r) {
+          digest(r);
+        });
+      } else {
+        auto r = std::move(f).Get();
+        digest(r);
+      }
+    });
+    producer.join();
+    consumer.join();
+    if (tail.Valid()) {
+      yaclib::Wait(tail);
+    }
+  }
+  ctx.SetNontrivial(true);
+  ctx.Check(threw, "set-rethrows", "C01", "Set(args) did not let the exception of the value's constructor escape");
+  ctx.Check(valid_after_throw, "promise-valid-after-throwing-set", "C01",
+            "the Promise is no longer Valid() after a Set whose value construction threw: the state is orphaned");
+  Expect exp = after == 0 ? Expect{0, code} : Expect{2, -1};
+  CheckObs(ctx, obs, exp, sh, 1, "consumer of a Promise whose first Set threw");
+}
+
 void Dispatch(Ctx& ctx, int ck, bool allow_moveonly, bool allow_void) {
   u32 n = 1 + (allow_moveonly ? 1 : 0) + (allow_void ? 1 : 0);
   u32 k = ctx.rng.Below(n);
@@ -631,6 +721,9 @@ VF_CELL(flatten_shared, "flatten/inner-shared-future", "C02,C06,C03,C04", 6) {
 }
 VF_CELL(owner_destroyed, "continuation-destroys-promise-owner", "C01,C03,C04", 5) {
   OwnerCase(ctx);
+}
+VF_CELL(throwing_set, "set-throws-then-retry-or-drop", "C01,C03", 5) {
+  ThrowingSetCase(ctx);
 }
 VF_CELL(then_inline, "then-inline", "C01,C03,C04", 10) {
   Dispatch(ctx, cThenInline, true, true);
